@@ -1,6 +1,6 @@
 #!/bin/bash
 # tools/run_all_thorough.sh [seed] - thorough tier of every claimed check against /repo, sequentially
-cd /verif
+cd "$(dirname "$0")/.."
 SEED="${1:-0}"
 for id in $(/venv/bin/python -c "import json;print(' '.join(c['property_id'] for c in json.load(open('MANIFEST.json'))['checks']))"); do
   s=$(date +%s)
